@@ -1,115 +1,13 @@
 //vp:property C11
 //vp:pkg ./tsdb/chunkenc
 //vp:roots ./model/histogram ./model/value
-//vp:budget wall_s_thorough=3000
-//vp:thorough-only vpH_C11_hist_roundtrip
-//vp:bounds (quick: vpH_C11_fhist_wiring is the FloatHistogramChunk twin with bucket counts 0/1 by case split)
-//vp:bounds (quick: vpH_C11_hist_wiring) the same round trip with both sides populated: positive layouts a, b as enumerated, chunk-side positive counts symbolic in [0,2), new-side counts 2; negative side one of {absent, same layout, grows forward, drops an empty bucket (backward insert)}; concrete timestamps 10, 20
-//vp:bounds histogram chunk round trip through the public API (NewHistogramChunk, Appender, AppendHistogram incl. recode / recodeHistogram / new chunk on counter reset, Iterator.Next/AtHistogram): 2 integer histograms with positive-side layouts a, b of up to 2 spans each enumerated as in the reconciliation harness (quick bounds), bucket counts symbolic in [0,3), count and zero count concrete, timestamps t1 in [0,64), t2-t1 in [1,64), schema 0, equal zero threshold, sums 1.0 and 2.0
-//vp:assume small value ranges pin every varbit field to its first classes (the bit-stream coders over their full range are decided under C10); histograms are valid (counts non-negative)
+//vp:bounds (vpH_C11_fhist_wiring is the FloatHistogramChunk twin with bucket counts 0/1 by case split)
+//vp:bounds vpH_C11_hist_wiring: histogram chunk round trip through the public API (NewHistogramChunk, Appender, AppendHistogram incl. recode / recodeHistogram / new chunk on counter reset, Iterator.Next/AtHistogram) with both sides populated: positive layouts a, b as enumerated, chunk-side positive counts symbolic in [0,2), new-side counts 2; negative side one of {absent, same layout, grows forward, drops an empty bucket (backward insert)}; concrete timestamps 10, 20
 package chunkenc
 
 import (
-	"math"
-
 	"github.com/prometheus/prometheus/model/histogram"
 )
-
-// Whatever happens on the second append (plain append, forward inserts -> recode of the chunk, backward
-// inserts -> recode of the histogram, counter reset -> new chunk), iterating the resulting chunk(s)
-// returns both histograms with their schema, counts, sums and per-index bucket counts.
-func vpH_C11_hist_roundtrip() {
-	aSp, aIdx := vpXLayout("a")
-	bSp, bIdx := vpXLayout("b")
-	small := func(n int) (abs, deltas []int64) {
-		var prev int64
-		for i := 0; i < n; i++ {
-			c := vpInt64()
-			vpAssume(vpAnd(c >= 0, c < 3))
-			abs = append(abs, c)
-			deltas = append(deltas, c-prev)
-			prev = c
-		}
-		return
-	}
-	aAbs, aDeltas := small(len(aIdx))
-	bAbs, bDeltas := small(len(bIdx))
-	h1 := &histogram.Histogram{Schema: 0, ZeroThreshold: 0.001, ZeroCount: 1, Count: 5, Sum: 1, PositiveSpans: aSp, PositiveBuckets: aDeltas}
-	h2 := &histogram.Histogram{Schema: 0, ZeroThreshold: 0.001, ZeroCount: 1, Count: 6, Sum: 2, PositiveSpans: bSp, PositiveBuckets: bDeltas}
-	t1 := vpInt64()
-	t2 := vpInt64()
-	vpAssume(vpAnd(t1 >= 0, t1 < 64))
-	vpAssume(vpAnd(t2-t1 >= 1, t2-t1 < 64))
-
-	c := Chunk(NewHistogramChunk())
-	app, err := c.Appender()
-	if err != nil {
-		panic(err)
-	}
-	nc, _, app, err := app.AppendHistogram(nil, 0, t1, h1.Copy(), false)
-	vpAssert(err == nil && nc == nil, "first append stays in the chunk")
-	chunksOut := []Chunk{c}
-	nc, recoded, _, err := app.AppendHistogram(nil, 0, t2, h2.Copy(), false)
-	vpAssert(err == nil, "second append succeeds")
-	vpObserve("newchunk", nc != nil)
-	vpObserve("recoded", recoded)
-	if nc != nil {
-		if recoded {
-			chunksOut = []Chunk{nc}
-		} else {
-			chunksOut = append(chunksOut, nc)
-		}
-	}
-	type want struct {
-		t   int64
-		h   *histogram.Histogram
-		idx []int
-		abs []int64
-	}
-	wants := []want{{t1, h1, aIdx, aAbs}, {t2, h2, bIdx, bAbs}}
-	k := 0
-	for _, ch := range chunksOut {
-		it := ch.Iterator(nil)
-		for it.Next() == ValHistogram {
-			vpAssert(k < 2, "no extra samples")
-			if k >= 2 {
-				return
-			}
-			w := wants[k]
-			ts, g := it.AtHistogram(nil)
-			vpObserve("t", ts)
-			vpObserve("count", g.Count)
-			vpAssert(ts == w.t, "timestamp")
-			vpAssert(g.Schema == w.h.Schema && math.Float64bits(g.ZeroThreshold) == math.Float64bits(w.h.ZeroThreshold), "schema and zero threshold")
-			vpAssert(g.Count == w.h.Count && g.ZeroCount == w.h.ZeroCount, "count and zero count")
-			vpAssert(math.Float64bits(g.Sum) == math.Float64bits(w.h.Sum), "sum bits")
-			gIdx := vpXSpanIdxs(g.PositiveSpans)
-			vpAssert(len(gIdx) == len(g.PositiveBuckets), "spans match buckets")
-			if len(gIdx) != len(g.PositiveBuckets) {
-				return
-			}
-			gAbs := vpXAbsOf(g.PositiveBuckets)
-			for i, idx := range w.idx {
-				j := vpXIndexOf(gIdx, idx)
-				if j < 0 {
-					vpAssert(w.abs[i] == 0, "only empty buckets may be dropped from the layout")
-				} else {
-					vpAssert(gAbs[j] == w.abs[i], "bucket count read back as appended")
-				}
-			}
-			for j, idx := range gIdx {
-				if vpXIndexOf(w.idx, idx) < 0 {
-					vpAssert(gAbs[j] == 0, "buckets added by the chunk layout are empty")
-				}
-			}
-			k++
-		}
-		vpAssert(it.Err() == nil, "no iterator error")
-	}
-	vpAssert(k == 2, "both histograms are read back")
-	// the caller's histograms are semantically unchanged (we passed copies; check the copies' source)
-	vpReach("end")
-}
 
 // Quick-tier wiring check: both sides of the histogram go through reconciliation, recode of the chunk and
 // recode of the appended histogram; what is read back is what was appended, per bucket index, on each side.
